@@ -90,6 +90,10 @@ def gen_op(rng, w, live):
         ext = rng.choice([0, 1])
         beh = rng.choice(['honest', 'honest', 'error', 'other-root'])
         return ('verify', i, pol, doc, lvl, pub, ext, beh)
+    if k < 0.65:
+        # a predefined policy cloned and given a fallback policy (KSI_Policy_clone + KSI_Policy_setFallback)
+        pol = 'fb:%s:%s' % (rng.choice(['key', 'userpub', 'calendar', 'pubfile', 'general', 'internal']), rng.choice(['internal', 'internal', 'key', 'calendar', 'general']))
+        return ('verify', i, pol, rng.choice(['none', 'none', 'match', 'flip']), rng.choice([0, 0, 0, 2, 9]), rng.choice(['none', 'match', 'differs']), rng.choice([0, 1]), rng.choice(['honest', 'honest', 'error']))
     if k < 0.68:
         # a user-defined policy: 1..4 rules, each evaluated lazily on the shared signature object
         rules = rng.sample(CUSTOM_RULES, rng.randint(1, 4))
@@ -194,7 +198,7 @@ class Hist:
             fresh = (q2.rc, q2.get('res'), q2.get('err'))
             self.r.count('verifications')
             if got != fresh:
-                self.viol('verdict-differs-from-fresh-context:%s' % ('user-defined-policy' if pol.startswith('rules:') else pol), 'verification %s gives %s on the shared context and %s on a fresh context' % (cmd[:90], got, fresh))
+                self.viol('verdict-differs-from-fresh-context:%s' % ('user-defined-policy' if pol.startswith('rules:') else 'policy-with-fallback' if pol.startswith('fb:') else pol), 'verification %s gives %s on the shared context and %s on a fresh context' % (cmd[:90], got, fresh))
         elif kind == 'serialize':
             pass
         elif kind == 'extend':
